@@ -134,6 +134,11 @@ def run(ctx):
         res = call_impl(pc.get_peak_array_indices, arr)
         ctx.corr('get_peak_array_indices', f"peaks|{w_rats(v)}", res,
                  lambda outs, val: cmp_exact([int(x) for x in val], p_ints(outs[0])), inputs={'values': list(v)})
+        # the documented selection value 'all' given explicitly (keyword and positional) is the default
+        for how, r_all in (('keyword', call_impl(pc.get_peak_array_indices, arr, ptype='all')), ('positional', call_impl(pc.get_peak_array_indices, arr, 'all'))):
+            ctx.oracle("C11 ptype='all' given explicitly (%s) == the default selection" % how,
+                       r_all[0] == res[0] and (res[0] != 'ok' or list(map(int, r_all[1])) == list(map(int, res[1]))), inputs={'values': list(v)},
+                       detail={'default': res[1] if res[0] != 'ok' else list(map(int, res[1])), 'explicit': r_all[1] if r_all[0] != 'ok' else list(map(int, r_all[1]))})
         if not nonconst or res[0] != 'ok':
             return
         P = res[1]
@@ -174,8 +179,19 @@ def run(ctx):
         ctx.flush()
     for i in range(n_random):
         n = gen.log_int(rng, 2, maxlen_r)
-        kind = rng.choice(['plateau', 'noise', 'int', 'dyadic', 'sine', 'offset-plateau', 'tiny-scale', 'near-tie'])
-        if kind == 'tiny-scale':
+        kind = rng.choice(['plateau', 'noise', 'int', 'dyadic', 'sine', 'offset-plateau', 'tiny-scale', 'near-tie', 'wide-range', 'wide-range'])
+        if kind == 'wide-range':
+            # strong motion followed / preceded by a ripple 2^-55 ... 2^-75 of its size (and a one-ulp oscillation riding on a large level):
+            # every change is a change, whatever the largest sample of the record is
+            m = max(2, n // 2)
+            big = gen.int_record(rng, m) * 2.0 ** rng.choice([0, 10, 20])
+            rip = gen.int_record(rng, n - m + 2) * 2.0 ** -rng.choice([55, 60, 75])
+            v = np.concatenate([big, rip]) if rng.random() < 0.5 else np.concatenate([rip, big])
+            if rng.random() < 0.3:
+                lvl = 2.0 ** 20
+                v = np.concatenate([v, lvl + np.array([rng.choice([0, 1, 2]) for _ in range(6)]) * np.spacing(lvl)])
+            v = v[:max(n, 4)]
+        elif kind == 'tiny-scale':
             # steps far below any absolute tolerance are still steps (exact power-of-two scaling of a dyadic record)
             v = gen.dyadic_record(rng, n) * 2.0 ** -rng.choice([30, 40, 60])
         elif kind == 'near-tie':
